@@ -61,6 +61,7 @@ QBREPS = ["belief", "belief_perm", "belief_support", "belief_perm"]
 # `states` field, unlike QMDPPolicy and next_agentstate): such tuples are only probed and counted for the
 # alpha-vector policy.  Set to True once msdm honours the field: they then join the judged representations.
 ALPHAVECTOR_HONOURS_BELIEF_STATES = True
+REUSE = [None, "rewards", "rewards", "observations", "discount", "rewards"]
 RARE_EPS = 1e-9      # probability of the rare transitions of the rare-transition family
 
 
@@ -410,6 +411,9 @@ def make_case(rng, k, tier):
     case["solver"] = "vi" if k % 4 == 3 else "pi"
     case["brep"] = [rng.choice(BREPS + (NONCANON if ALPHAVECTOR_HONOURS_BELIEF_STATES else [])) for _ in bel]
     case["qbrep"] = [rng.choice(QBREPS) for _ in bel]
+    # planner-reuse history: the SAME planner object first plans a variant of the POMDP that differs only in
+    # the named component, then the POMDP of the case; the second result is judged like a fresh planner's
+    case["reuse"] = REUSE[k % len(REUSE)]
     return case
 
 
@@ -546,6 +550,44 @@ class Real:
         self.ok = True
         return True
 
+    def warmup(self, planner, site):
+        """Planner-reuse history: let the planner object plan the variant POMDP first (result discarded)."""
+        kind = self.case.get("reuse")
+        if not kind:
+            return
+        if not hasattr(self, "_variant"):
+            self._variant = None
+            case = self.case
+            mv = copy.deepcopy(case.get("m_build", case["m"]))
+            N = mv["N"]
+            if kind == "rewards":
+                mv["R"] = [[[-x + (s_ + a_) % 2 for x in row] for a_, row in enumerate(sa)] for s_, sa in enumerate(mv["R"])]
+            elif kind == "observations":
+                # as different in information as possible: blind where the case reveals the state, as revealing
+                # as the observation alphabet allows otherwise (a stale result is then visibly too low / too high)
+                NO, OD = mv["NO"], mv["OD"]
+                if mv.get("obs_kind") in ("identity", "permuted"):
+                    mv["O"] = [[[OD if o == 0 else 0 for o in range(NO)] for _n in range(N)] for _a in range(mv["K"])]
+                else:
+                    mv["O"] = [[[OD if o == (n + a_) % NO else 0 for o in range(NO)] for n in range(N)] for a_ in range(mv["K"])]
+            else:
+                mv["GN"], mv["GD"] = (3, 4) if (mv["GN"], mv["GD"]) == (1, 2) else (1, 2)
+            try:
+                Bv = pb.build_pomdp(mv, rng=random.Random(digest([case["m"], case["rep"]])), **case["rep"])
+                self._variant = self.with_rare_transitions(Bv, mv["rare"]) if mv.get("rare") else Bv.pomdp
+            except Exception:                                # noqa: BLE001
+                self.ctx.skip("variant POMDP of a planner-reuse history could not be built")
+        if self._variant is None:
+            return
+        self.ctx.evaluations += 1
+        try:
+            with warnings.catch_warnings():
+                warnings.simplefilter("ignore")
+                planner.plan_on(self._variant)
+            self.ctx.count(f"planner_reuse_histories[{site} after a variant with other {kind}]")
+        except Exception:                                    # noqa: BLE001
+            self.ctx.count("planner_reuse_warmups_that_raised")
+
     @staticmethod
     def with_rare_transitions(B, rare):
         """The same POMDP with the transitions (s, a, n) of `rare` given probability RARE_EPS (taken
@@ -659,6 +701,7 @@ class Real:
                 planner = PointBasedValueIteration(min_belief_expansions=cfg["min_belief_expansions"],
                                                    max_belief_expansions=cfg["max_belief_expansions"],
                                                    value_convergence_epsilon=float(eps), horizon=(None if H < 0 else H))
+                self.warmup(planner, "PointBasedValueIteration")
                 res = self.call("PointBasedValueIteration.plan_on", planner.plan_on, self.p)
             except Exception as e:                           # noqa: BLE001
                 rec["error"] = err_of(e)
@@ -850,6 +893,7 @@ class Real:
             with warnings.catch_warnings():
                 warnings.simplefilter("ignore")
                 planner = QMDP() if solver == "pi" else QMDP(mdp_solver=ValueIteration(max_residual=1e-10))
+                self.warmup(planner, "QMDP")
                 res = self.call("QMDP.plan_on", planner.plan_on, self.p)
             self.observe_policy(rec, res.policy, "qmdp")
         except Exception as e:                               # noqa: BLE001
@@ -931,6 +975,8 @@ class Judge:
     def fail(self, site, clause, what, extra=None, shape=None):
         self.ok = False
         sig = f"C08:{site}:{clause}:{shape or self.shape}"
+        if self.case.get("reuse"):
+            what += f" [planner object had planned a variant with other {self.case['reuse']} before]"
         self.ctx.violation(sig, f"{site} {clause}: {what}"[:700],
                            {"case": self.case, "site": site, "clause": clause, "extra": extra})
 
@@ -1306,7 +1352,8 @@ def run(ctx):
                 "(initial, vertices incl. absorbing, simplex points with a zero component, filter-reachable) x direct backup "
                 "runs and planner configurations (thresholds, horizons incl. None and 0, expansion budgets) x QMDP with PI / VI; "
                 "beliefs handed over as Belief tuples (canonical; for QMDP also permuted / support-only state lists), dictionaries "
-                "(support only, with zeros, permuted insertion order) and lists. "
+                "(support only, with zeros, permuted insertion order) and lists; in 5 of 6 cases the planner objects (QMDP, "
+                "PointBasedValueIteration) have planned a variant POMDP with other rewards / observations / discount first. "
                 "non-trivial = (instance, belief) with >= 2 supported non-absorbing states, two actions with different exact "
                 "upper action values and a non-zero optimum")
     ctx.assumptions = [
